@@ -118,3 +118,53 @@ Proof. intros Hf H. pose proof (generate_atomic st k None sc fs r st' Hf H) as A
 Example generate_no_id_undo : generate true {| s_doc := {| d_vm := []; d_rels := fun _ => []; d_svc := [] |}; s_keys := [3]; s_kids := [(3, 3)] |} 5 None SVm [false; false]
   = (SPlain, {| s_doc := {| d_vm := []; d_rels := fun _ => []; d_svc := [] |}; s_keys := [3]; s_kids := [(3, 3)] |}).
 Proof. reflexivity. Qed.
+
+(* an explicit undo failure needs a storage fault: on a fault-free script generate / purge end in Ok or
+   in a plain error (state unchanged by the atomicity theorems), and generate succeeds whenever the
+   document accepts the method and the digest is free *)
+Lemma next_true fs r : next fs = (true, r) -> In true fs.
+Proof. destruct fs as [|b t]; cbn [next]; intros H; inversion H; subst. left; reflexivity. Qed.
+Lemma next_rest fs b r x : next fs = (b, r) -> In x r -> In x fs.
+Proof. destruct fs as [|c t]; cbn [next]; intros H; inversion H; subst; [intros []|intros I; right; exact I]. Qed.
+Lemma undo_keygen_fault st k fs st' : undo_keygen st k fs = (SUndoFailed, st') -> In true fs.
+Proof.
+  unfold undo_keygen. destruct (next fs) as [f r] eqn:N. destruct f; [|discriminate].
+  intros _. exact (next_true _ _ N).
+Qed.
+Theorem generate_undo_failed_needs_fault sn st k ou sc fs st' :
+  generate sn st k ou sc fs = (SUndoFailed, st') -> In true fs.
+Proof.
+  unfold generate. destruct (next fs) as [f1 fs1] eqn:N1. destruct f1; [discriminate|].
+  destruct ou as [u|]; [|intros H; apply undo_keygen_fault in H; exact (next_rest _ _ _ _ N1 H)].
+  destruct (insert_method _ _ _) as [d'|e]; [|intros H; apply undo_keygen_fault in H; exact (next_rest _ _ _ _ N1 H)].
+  destruct (next fs1) as [f2 fs2] eqn:N2.
+  destruct (f2 || _); [|discriminate].
+  intros H; apply undo_keygen_fault in H. apply (next_rest _ _ _ _ N1). exact (next_rest _ _ _ _ N2 H).
+Qed.
+Theorem purge_undo_failed_needs_fault st u fs st' :
+  purge st u fs = (SUndoFailed, st') -> In true fs.
+Proof.
+  unfold purge. destruct (snd (remove_method (s_doc st) u)) as [[m sc]|]; [|discriminate].
+  destruct (next fs) as [f1 fs1] eqn:N1.
+  destruct (if f1 then None else kids_get (s_kids st) (m_data m)) as [k|]; [|discriminate].
+  destruct (next fs1) as [fk fs2] eqn:N2. destruct (next fs2) as [fi fs3] eqn:N3.
+  destruct (fk || _), fi; try discriminate.
+  - destruct (next fs3) as [fr fs4] eqn:N4. destruct fr; [|discriminate]. intros _.
+    apply (next_rest _ _ _ _ N1), (next_rest _ _ _ _ N2), (next_rest _ _ _ _ N3). exact (next_true _ _ N4).
+  - intros _. apply (next_rest _ _ _ _ N1), (next_rest _ _ _ _ N2). exact (next_true _ _ N3).
+Qed.
+Lemma next_fault_free fs : (forall b, In b fs -> b = false) -> exists r, next fs = (false, r) /\ (forall b, In b r -> b = false).
+Proof.
+  destruct fs as [|c t]; cbn [next]; intros A.
+  - exists []. split; [reflexivity|intros b []].
+  - rewrite (A c (or_introl eq_refl)). exists t. split; [reflexivity|]. intros b I. apply A. right; exact I.
+Qed.
+Theorem generate_fault_free_succeeds sn st k u sc fs d' :
+  (forall b, In b fs -> b = false) ->
+  insert_method (s_doc st) {| m_id := u; m_data := k |} sc = inl d' -> kids_get (s_kids st) k = None ->
+  generate sn st k (Some u) sc fs = (SOk, {| s_doc := d'; s_keys := s_keys st ++ [k]; s_kids := s_kids st ++ [(k, k)] |}).
+Proof.
+  intros A I K. unfold generate.
+  destruct (next_fault_free fs A) as [fs1 [N1 A1]]. rewrite N1, I.
+  destruct (next_fault_free fs1 A1) as [fs2 [N2 _]]. rewrite N2, K. reflexivity.
+Qed.
